@@ -102,9 +102,8 @@ func (t *AppendOnlyTree) initCache(tx dbtypes.Txer) error {
 		}
 		return err
 	}
-	t.lastIndex = int64(lastRoot.Index)
 	currentNodeHash := lastRoot.Hash
-	index := t.lastIndex
+	index := int64(lastRoot.Index)
 	// It starts in height-1 because 0 is the level of the leafs
 	for h := int(types.DefaultHeight - 1); h >= 0; h-- {
 		currentNode, err := t.getRHTNode(tx, currentNodeHash)
@@ -131,6 +130,9 @@ func (t *AppendOnlyTree) initCache(tx dbtypes.Txer) error {
 	}
 
 	t.lastLeftCache = siblings
+	// the index is set only once the frontier has been rebuilt: if reading a node fails, the cache stays
+	// marked as not valid for the next leaf and is rebuilt again
+	t.lastIndex = index
 	return nil
 }
 
